@@ -1,12 +1,55 @@
+// Command run_closersim is the worker binary of the cooperative-close
+// simulator (property C17). ./check starts 16 of these with different shards.
+//
 //go:debug randseednop=0
 package main
 
 import (
 	"fmt"
+	"os"
+	"strconv"
 
-	"github.com/lightningnetwork/lnd/peer"
+	"verif/closersim"
+	"verif/simcore"
 )
 
 func main() {
-	fmt.Println(peer.NewMusigChanCloser(nil) != nil)
+	prop := os.Getenv("VERIF_PROP")
+	if prop == "" {
+		prop = "C17"
+	}
+	if prop != "C17" {
+		fmt.Fprintf(os.Stderr, "HARNESS: unknown VERIF_PROP %q (run_closersim serves C17)\n", prop)
+		os.Exit(2)
+	}
+	// Debugging aid: VERIF_C17_TRACE_SEED=<run seed> (or VERIF_C17_TRACE_IDX=<i>
+	// together with VERIF_SEED) executes that single run and prints its
+	// full event trace.
+	if v, i := os.Getenv("VERIF_C17_TRACE_SEED"), os.Getenv("VERIF_C17_TRACE_IDX"); v != "" || i != "" {
+		var seed uint64
+		if v != "" {
+			seed, _ = strconv.ParseUint(v, 10, 64)
+		} else {
+			bs, _ := strconv.ParseUint(os.Getenv("VERIF_SEED"), 10, 64)
+			idx, _ := strconv.ParseUint(i, 10, 64)
+			seed = simcore.SplitMix(bs, idx)
+		}
+		tier := os.Getenv("VERIF_TIER")
+		if tier == "" {
+			tier = "quick"
+		}
+		out := simcore.Execute(closersim.Run, simcore.NewTape(seed), seed, tier)
+		fmt.Printf("seed=%d arm=%s steps=%d nontrivial=%v hash=%016x\n", seed, out.Arm, out.Steps, out.Nontrivial, out.Hash)
+		for _, l := range out.Trace {
+			fmt.Println("  | " + l)
+		}
+		if out.Violation != nil {
+			fmt.Printf("VIOLATION %s: %s\n", out.Violation.Code, out.Violation.Msg)
+		}
+		if out.HarnessErr != "" {
+			fmt.Printf("HARNESS: %s\n", out.HarnessErr)
+		}
+		os.Exit(0)
+	}
+	simcore.WorkerMain(simcore.Spec{Property: "C17", Engine: "closersim", Run: closersim.Run})
 }
